@@ -168,6 +168,13 @@
        allowed) is covered by C01_retain_stateful / C01_retain_stateful_abs; what a
        panicking closure leaves behind in general environments is property C04;
      - Lawful has no clause for Clone / eqV: no operation of C01 calls them.
+     - the crate has NO `impl Extend for Map`: DExtend (MapOps.extend_loop run on
+       &mut self) is a model-only convenience - the loop body of the real entry
+       points FromIterator / From<[(K,V);N]> (MapOps.from_iter), which build a
+       fresh local map and are covered by property C16.  DExtend histories are
+       therefore about a composition of inserts, not about a crate method.
+     - observers after a dop2 history: C01_observers_after_history2; stateful
+       retain inside histories: dop3 / C01_run3_refines (SECOND AUDIT ADDENDUM).
    ========================================================================== *)
 Require Import Model.Base Model.Slots Model.MapOps Model.Exec.
 Require Import Proofs.Hoare Proofs.Inv Proofs.Spec Proofs.Lawful Proofs.IterSpec Proofs.Dict
@@ -832,3 +839,152 @@ Example C01_example_retain_stateful :
   | _ => False
   end.
 Proof. vm_compute. repeat split; reflexivity. Qed.
+
+(* ========================================================================== *)
+(* SECOND AUDIT ADDENDUM (Proofs/MoreDict.v, second part)                     *)
+(* ========================================================================== *)
+
+(* -------------------------------------------------------------------------- *)
+(* the observers as operations after an EXTENDED history (dop2: drain, whole-
+   container iteration, entry(k).or_insert(v), extend interleaved with the 13
+   operations).  df is the final state of the run of the relational specification
+   that the model's results follow (druns2); len(), is_empty(), capacity() and
+   get(q) on the final world answer what df answers.                            *)
+Theorem C01_observers_after_history2 :
+  forall (K V Q T : Type) (E : env K V Q T) (debug : bool) (ck : K -> N) (cq : Q -> N),
+  Lawful E ck cq ->
+  forall (n : nat) (ops : list (@dop2 K V Q)) (s : T) (lg : list event),
+  let w0 := {| cb := s; log := lg; self := new_map n |} in
+  exists (wf : world K V T) (df : @dict K V),
+    mfinal2 E debug ops w0 = Some wf /\
+    druns2 ck cq n ops [] (mrun2 E debug ops w0) df /\
+    length_ wf = Ok (length df) wf /\
+    is_empty wf = Ok (match df with [] => true | _ :: _ => false end) wf /\
+    capacity wf = Ok n wf /\
+    length df <= n /\
+    forall q : Q,
+      wp (get_deref E q)
+        (fun (r : option (K * V)) (w' : world K V T) => stable wf w' /\ r = d_find ck df (cq q))
+        (fun _ : world K V T => False) wf.
+Proof. exact (@observers_after_history2). Qed.
+Print Assumptions C01_observers_after_history2.
+
+(* -------------------------------------------------------------------------- *)
+(* retain with a stateful FnMut predicate INSIDE a history (C01_retain_stateful
+   is about one call).  Definitions (Proofs/MoreDict.v), quoted:
+     Inductive dop3 := D3Base (o : dop2) | D3RetainF (f : pred_t).
+     Inductive dres3 := R3Base (r : dres2) | R3Unit | R3Panic.
+     mstep3 E debug o := match o with
+        | D3Base o => r <- mstep2 E debug o ;; ret (R3Base r)
+        | D3RetainF f => retain E debug f ;; ret R3Unit end
+     panic_res3 o := match o with D3Base _ => R3Base RPanic2 | D3RetainF _ => R3Panic end
+     THE SPECIFICATION of one step (a relation, like dstep2):
+     dstep3 E ck cq n o d r d' := match o with
+        | D3Base o => exists r2, dstep2 ck cq n o d r2 d' /\ r = R3Base r2
+        | D3RetainF f => exists s l, Permutation l d /\
+            Permutation (rt_list (l_retain_st E f (length l) 0 s l)) d' /\
+            r = if rt_ok (l_retain_st E f (length l) 0 s l) then R3Unit else R3Panic end
+       i.e. retain(f) on the ideal dictionary d is the traversal specification
+       l_retain_st run on SOME enumeration l of d from SOME callback state s (the
+       enumeration order is unspecified, as for drain / iteration; in the model it
+       is the slot order and the callback state at that moment,
+       C01_step3_refines_retain); f may rewrite values and may panic (R3Panic:
+       the dictionary is then what the traversal reached).  What the traversal
+       does to the associations - f called exactly once on each, survivors = those
+       answered true - is C01_l_retain_st_once.
+     mrun3 / mfinal3 / druns3: as mrun2 / mfinal2 / druns2.                      *)
+Theorem C01_step3_refines :
+  forall (K V Q T : Type) (E : env K V Q T) (debug : bool) (ck : K -> N) (cq : Q -> N),
+  Lawful E ck cq ->
+  forall (n : nat) (o : @dop3 K V Q T) (w : world K V T) (d : @dict K V),
+  Abs ck (self w) d ->
+  cap (self w) = n ->
+  match mstep3 E debug o w with
+  | Ok r w' => exists d' : @dict K V,
+                 dstep3 E ck cq n o d r d' /\ Abs ck (self w') d' /\ cap (self w') = n
+  | Panic w' => exists d' : @dict K V,
+                  dstep3 E ck cq n o d (panic_res3 o) d' /\ Abs ck (self w') d' /\ cap (self w') = n
+  | UB => False
+  end.
+Proof. exact (@step3_refines). Qed.
+Print Assumptions C01_step3_refines.
+
+(* the retain step with its witnesses explicit: enumeration = slot order,
+   callback state = the current one; returned or panicked, the container
+   represents (and stores, in this order) what the traversal leaves *)
+Theorem C01_step3_refines_retain :
+  forall (K V Q T : Type) (E : env K V Q T) (debug : bool) (ck : K -> N) (cq : Q -> N),
+  Lawful E ck cq ->
+  forall (f : @pred_t K V T) (w : world K V T) (d : @dict K V),
+  Abs ck (self w) d ->
+  let o := l_retain_st E f (length (Spec.elems (self w))) 0 (cb w) (Spec.elems (self w)) in
+  wp (retain E debug f)
+    (fun (_ : unit) (w' : world K V T) =>
+       rt_ok o = true /\ Abs ck (self w') (rt_list o) /\ Spec.elems (self w') = rt_list o /\
+       cap (self w') = cap (self w) /\ cb w' = rt_cb o /\ log w' = log w ++ rt_log o)
+    (fun w' : world K V T =>
+       rt_ok o = false /\ Abs ck (self w') (rt_list o) /\ Spec.elems (self w') = rt_list o /\
+       cap (self w') = cap (self w) /\ cb w' = rt_cb o /\ log w' = log w ++ rt_log o)
+    w.
+Proof. exact (@step3_refines_retain). Qed.
+Print Assumptions C01_step3_refines_retain.
+
+(* any history mixing the 13 operations, drain, iteration, entry, extend and
+   retain with stateful predicates, from any represented state / from Map::new() *)
+Theorem C01_run3_refines :
+  forall (K V Q T : Type) (E : env K V Q T) (debug : bool) (ck : K -> N) (cq : Q -> N),
+  Lawful E ck cq ->
+  forall (n : nat) (ops : list (@dop3 K V Q T)) (w : world K V T) (d : @dict K V),
+  Abs ck (self w) d ->
+  cap (self w) = n ->
+  exists (wf : world K V T) (df : @dict K V),
+    mfinal3 E debug ops w = Some wf /\
+    druns3 E ck cq n ops d (mrun3 E debug ops w) df /\
+    Abs ck (self wf) df /\
+    cap (self wf) = n.
+Proof. exact (@run3_refines). Qed.
+Print Assumptions C01_run3_refines.
+
+Theorem C01_run3_refines_new :
+  forall (K V Q T : Type) (E : env K V Q T) (debug : bool) (ck : K -> N) (cq : Q -> N),
+  Lawful E ck cq ->
+  forall (n : nat) (ops : list (@dop3 K V Q T)) (s : T) (lg : list event),
+  let w0 := {| cb := s; log := lg; self := new_map n |} in
+  exists (wf : world K V T) (df : @dict K V),
+    mfinal3 E debug ops w0 = Some wf /\
+    druns3 E ck cq n ops [] (mrun3 E debug ops w0) df /\
+    Abs ck (self wf) df /\
+    cap (self wf) = n.
+Proof. exact (@run3_refines_new). Qed.
+Print Assumptions C01_run3_refines_new.
+
+(* the specification of D3RetainF is conservative over DRetain: for a state-
+   independent, non-panicking predicate (pure closure g), whatever enumeration and
+   callback state are chosen, the step returns and the new dictionary is the one
+   dstep (DRetain g) computes *)
+Theorem C01_dstep3_retain_pure :
+  forall (K V Q T : Type) (E : env K V Q T) (ck : K -> N) (cq : Q -> N) (n : nat)
+         (f : @pred_t K V T) (g : K -> V -> bool * V) (d : list (K * V))
+         (r : @dres3 K V) (d' : @dict K V),
+  (forall (s : T) (k : K) (v : V), fst (f s k v) = (Some (fst (g k v)), snd (g k v))) ->
+  Uniq ck d ->
+  dstep3 E ck cq n (D3RetainF f) d r d' ->
+  r = R3Unit /\ Permutation d' (snd (dstep ck cq n (DRetain g) d)).
+Proof. exact (@dstep3_retain_pure). Qed.
+Print Assumptions C01_dstep3_retain_pure.
+
+(* a history on a capacity-3 map: three inserts, retain with the order-dependent
+   predicate C01_alt_pred (keep on even call numbers, write the call number into
+   the value), a lookup, a second retain (its call numbers continue at 3: the
+   callback state is threaded through the history), a lookup *)
+Example C01_example_run3 :
+  mrun3 (env_map {| sc_adv := false; sc_seed := 0; sc_fk := 0; sc_fa := 0 |}) false
+        [D3Base (DBase (DInsert (k_ 1 5) (v_ 2 7))); D3Base (DBase (DInsert (k_ 3 6) (v_ 4 8)));
+         D3Base (DBase (DInsert (k_ 5 7) (v_ 6 9)));
+         D3RetainF C01_alt_pred; D3Base (DBase (DGet (QCls 7))); D3Base (DBase (DContains (QCls 6)));
+         D3RetainF C01_alt_pred; D3Base (DBase (DGet (QCls 7))); D3Base (DBase (DContains (QCls 5)))]
+        {| cb := cs0; log := []; self := new_map 3 |}
+  = [R3Base (RBase RNone); R3Base (RBase RNone); R3Base (RBase RNone);
+     R3Unit; R3Base (RBase (RVal (v_ 6 2))); R3Base (RBase (RBool false));
+     R3Unit; R3Base (RBase (RVal (v_ 6 4))); R3Base (RBase (RBool false))].
+Proof. vm_compute. reflexivity. Qed.
